@@ -119,6 +119,15 @@ class LexModel:
                 self.all_keys |= {x for x in v if isinstance(x, str)}
         self.nonuniform = 0
         self.classes = {}
+        # constant attributes the constructor puts on the parser object (a lexer rule may read them)
+        self.self_consts = {}
+        init = self.methods.get("__init__")
+        if init is not None:
+            for n in ast.walk(init.node):
+                if isinstance(n, ast.Assign) and isinstance(n.value, ast.Constant):
+                    for t in n.targets:
+                        if isinstance(t, ast.Attribute) and isinstance(t.value, ast.Name) and t.value.id == "self":
+                            self.self_consts[t.attr] = n.value.value
 
     # -- start state ---------------------------------------------------------
     def _start_flags(self):
@@ -218,7 +227,7 @@ class LexModel:
             return self.cache[key]
         rule = self.rule_for(wc)
         lexer = Obj(**dict(flags))
-        it = Interp(self.model, self.ns, lexer)
+        it = Interp(self.model, self.ns, lexer, self_attrs=dict(self.self_consts))
         if rule == "t_error":
             res = LexResult("<t_error>", "raw", wc.word, flags, rule, raised="t_error")
             self.cache[key] = res
@@ -245,6 +254,10 @@ class LexModel:
         for k, v in res.flags:
             if isinstance(v, W):
                 raise NonUniform(f"class {wc.name}: flag {k} not uniform")
+        if it.self_attrs != self.self_consts:
+            changed = sorted(k for k in it.self_attrs if it.self_attrs.get(k) != self.self_consts.get(k))
+            raise AnalysisError(f"lexer rule {rule} keeps state on the parser object itself ({changed}); the lexer model tracks only "
+                                "self.lexer.* (such state is not reset per statement - see the T-PURE / T-RESET obligations of C03)")
         self.cache[key] = res
         return res
 
